@@ -110,18 +110,18 @@ class error_html(object):
         t_seg = []  # list of formatted elements
         #seg_data.format_ele_list(t_seg)
         for i in range(1, len(seg_data) + 1):
-            if seg_data.is_composite(ref_des='%02i' % (i)):
+            # the element itself, not a reference designator: those stop at position 99
+            comp_data = seg_data.elements[i - 1]
+            if comp_data.is_composite():
                 #if seg_data.get_seg_id()=='CLM': pdb.set_trace()
                 t_seg.append([])
-                for j in range(1, seg_data.ele_len('%02i' % (i)) + 1):
-                    ref_des = '%02i-%i' % (i, j)
-                    ele_str = escape_html_chars(seg_data.get_value(ref_des))
+                for j in range(1, len(comp_data) + 1):
+                    ele_str = escape_html_chars(comp_data[j - 1].format())
                     if i in ele_pos_map.keys() and ele_pos_map[i] == j:
                         ele_str = self._wrap_ele_error(ele_str)
                     t_seg[-1].append(ele_str)
             else:
-                ref_des = '%02i' % (i)
-                ele_str = escape_html_chars(seg_data.get_value(ref_des))
+                ele_str = escape_html_chars(comp_data.format())
                 if i in ele_pos_map.keys():
                     ele_str = self._wrap_ele_error(ele_str)
                 t_seg.append(ele_str)
